@@ -128,7 +128,7 @@ func init() {
 }
 
 func isSymAtom(a string) bool {
-	if a == "" || smtBuiltin[a] || a[0] == ':' || a[0] == '"' {
+	if a == "" || smtBuiltin[a] || a[0] == ':' || a[0] == '"' || strings.HasPrefix(a, "needs.") {
 		return false
 	}
 	if (a[0] >= '0' && a[0] <= '9') || a[0] == '#' {
@@ -196,6 +196,7 @@ type formInfo struct {
 	pats   []map[string]bool // per pattern: symbols that must be reachable
 	syms   map[string]bool   // all symbols of the form
 	consts map[string]bool   // symbols that never occur in function position: constants the axiom is about
+	needs  []string          // :qid needs.<sym>: only useful once <sym> is reachable by other means
 	defSym string            // define-fun: the defined name
 }
 
@@ -204,16 +205,33 @@ var (
 	formCache   = map[string]*formInfo{}
 )
 
-// collectHeads gathers the symbols that occur in function position.
+// collectHeads gathers the symbols that occur in function position, and the sorts of binders.
 func collectHeads(e *psx, out map[string]bool) {
 	if e.list == nil {
 		return
 	}
 	if len(e.list) > 0 && e.list[0].list == nil {
 		out[e.list[0].atom] = true
+		if h := e.list[0].atom; (h == "forall" || h == "exists") && len(e.list) >= 2 {
+			for _, b := range e.list[1].list {
+				if len(b.list) > 1 {
+					markAll(b.list[1], out)
+				}
+			}
+		}
 	}
 	for _, x := range e.list {
 		collectHeads(x, out)
+	}
+}
+
+func markAll(e *psx, out map[string]bool) {
+	if e.list == nil {
+		out[e.atom] = true
+		return
+	}
+	for _, x := range e.list {
+		markAll(x, out)
 	}
 }
 
@@ -270,6 +288,9 @@ func analyzeForm(f string) *formInfo {
 						collectSyms(inner.list[i+1], bound, p)
 						fi.pats = append(fi.pats, p)
 					}
+					if inner.list[i].atom == ":qid" && strings.HasPrefix(inner.list[i+1].atom, "needs.") {
+						fi.needs = append(fi.needs, strings.TrimPrefix(inner.list[i+1].atom, "needs."))
+					}
 				}
 			}
 		} else if containsQuant(body) {
@@ -320,6 +341,10 @@ func prunePrelude(pre, body string) (string, int) {
 		if t != "(" && t != ")" && isSymAtom(t) {
 			R[t] = true // bound variable names of the query are harmless extras
 		}
+	}
+	R0 := map[string]bool{} // the query's own symbols
+	for k := range R {
+		R0[k] = true
 	}
 	basics := map[string]bool{}
 	for i, f := range forms {
@@ -376,6 +401,12 @@ func prunePrelude(pre, body string) (string, int) {
 				// query that does not mention them
 				if inc && !subsetOf(fi.consts, R) {
 					inc = false
+				}
+				// an axiom that only pays off when the query itself speaks of a symbol it would introduce
+				for _, n := range fi.needs {
+					if !R0[n] {
+						inc = false
+					}
 				}
 			case 'g':
 				inc = subsetOf(fi.syms, R)
